@@ -117,6 +117,26 @@ def run(run):
             out = np.asarray(op.angularSpectrum(U.copy(), 1e-6, 1e-2, 2e-2, 0))
             if out.shape != U.shape or not np.array_equal(out, U):
                 run.violation("angularSpectrum:zero-distance-not-identity", dict(N=N), dict(kind="zero", N=N))
+        # a distance reached through very many very short steps is the same distance (no step is "too short to matter"):
+        # per-step Fresnel phase lam z / d^2 from 1e-9 to 1e-5, one to a few thousand steps
+        n_fine = 0
+        for (lam, d1, per_step, K) in ((1e-6, 1e-3, 0.9e-6, 2000), (1e-6, 1e-3, 1e-8, 3000), (500e-9, 1e-2, 1e-5, 1000), (1e-6, 1e-3, 1e-9, 1500)):
+            N = 8
+            U = fields[N][0] if N in fields else (rng.standard_normal((N, N)) + 1j * rng.standard_normal((N, N)))
+            zs = per_step * d1 ** 2 / lam
+            for sgn in (1, -1):
+                W = U.copy()
+                for _ in range(K):
+                    W = np.asarray(op.angularSpectrum(W, lam, d1, d1, sgn * zs))
+                one = np.asarray(op.angularSpectrum(U.copy(), lam, d1, d1, sgn * K * zs))
+                n_fine += 1
+                moved = float(np.abs(one - U).max())
+                if W.shape != one.shape or not np.allclose(W, one, rtol=0, atol=1e-9 * np.abs(U).max()):
+                    run.violation("angularSpectrum:group-law:many-short-steps", dict(lam=lam, d1=d1, step=sgn * zs, steps=K, err=float(np.abs(W - one).max()),
+                                                                                    field_change_of_single_step=moved),
+                                  dict(kind="fine", lam=lam, d1=d1, per_step=per_step, K=K, sgn=sgn))
+                    break
+        n_prog += n_fine
         # m then 1/m
         n_back = 0
         for c in backs:
@@ -181,6 +201,16 @@ def replay(run, case):
             bad, _ = c10.check_pipeline(op, case, c10._tables(), rng, keyprefix="fresnel-integral:")
             for key, detail in bad:
                 run.violation(key, detail, case)
+        elif k == "fine":
+            N = 8
+            U = rng.standard_normal((N, N)) + 1j * rng.standard_normal((N, N))
+            zs = case["per_step"] * case["d1"] ** 2 / case["lam"] * case["sgn"]
+            W = U.copy()
+            for _ in range(case["K"]):
+                W = np.asarray(op.angularSpectrum(W, case["lam"], case["d1"], case["d1"], zs))
+            one = np.asarray(op.angularSpectrum(U.copy(), case["lam"], case["d1"], case["d1"], case["K"] * zs))
+            if not np.allclose(W, one, rtol=0, atol=1e-9 * np.abs(U).max()):
+                run.violation("angularSpectrum:group-law:many-short-steps", dict(err=float(np.abs(W - one).max())), case)
         elif k == "program":
             for phys in PI.PHYS:
                 lam, d1, z0 = phys
